@@ -121,6 +121,8 @@ def feed_ops(case, data, chunks=None, end=True, free=False):
         chunks = [len(data)] if data else []
     p = 0
     for c in chunks:
+        if c == 0:
+            continue    # feed(start == end) is only defined with -fzero-len-input-support (C10 builds those itself)
         ops.append(f"{verb}:{data[p:p + c].hex()}")
         p += c
     if end and case.eof():
